@@ -20,6 +20,7 @@ import (
 	"verifmc/ev"
 	"verifmc/reg"
 	"verifmc/sched"
+	"verifmc/verifsched"
 )
 
 func init() {
@@ -83,6 +84,17 @@ func worker(args []string) int {
 				}
 				res := sched.Explore(sp.Scenario(), bound, budget(reg.Tier == "thorough"))
 				alloc.ReportSched(r, id, res, map[string]interface{}{"datagrams": len(sp.Dgrams), "reload_thread": sp.Reload, "prefill": sp.Prefill, "blocks": sp.Blocks})
+				if reg.Tier == "thorough" && len(res.Found) == 0 {
+					// second pass: ALL interleavings (no preemption bound) at the granularity of
+					// synchronisation operations (lock acquisitions, goroutine start/end)
+					verifsched.YieldOff.Store(true)
+					sc := sp.Scenario()
+					sc.Name = sp.Name + "/sync-level-unbounded"
+					res2 := sched.Explore(sc, 1<<20, 10*time.Minute)
+					verifsched.YieldOff.Store(false)
+					res2.BoundAsked = res2.BoundCompleted // "unbounded": whatever completed is the claim
+					alloc.ReportSched(r, id, res2, map[string]interface{}{"granularity": "synchronisation operations only", "preemption_bound": "none"})
+				}
 			}
 		}
 	case "determinism":
